@@ -35,6 +35,8 @@ STD_AXIOMS = {"propext", "Classical.choice", "Quot.sound"}
 LIB_FLAGS = {
     "dbg": "-O1 -g1 -UNDEBUG -DBFL_VERIF -fsanitize=address,undefined -fno-sanitize-recover=all -fno-omit-frame-pointer",
     "tsan": "-O1 -g1 -DBFL_VERIF -fsanitize=thread -fno-omit-frame-pointer",
+    # a release-like build without sanitizers (address reuse, optimisation-dependent paths: DEEPEN.md class j)
+    "opt": "-O2 -g0 -DNDEBUG -DBFL_VERIF",
 }
 
 
